@@ -32,6 +32,7 @@ type LoopContract struct {
 	Decreases  *Clause
 	Modifies   []*Clause // extra havoc targets
 	Steps      []*Clause // per-iteration postconditions; iter(e) is e at the start of the iteration
+	Exits      []*Clause // asserted when the loop condition becomes false (not on break)
 	Acquires   string    // "m R": the loop locks every element of m in mode R
 	Releases   string    // "m": the loop unlocks every element of m
 }
@@ -291,7 +292,7 @@ type rawDirective struct {
 }
 
 var topKeywords = map[string]bool{"ghost": true, "pred": true, "spec": true, "uninterp": true, "axiom": true, "lemma": true, "func": true, "noop": true, "ifaceas": true, "extern": true, "globalinv": true, "intrinsic": true, "typeas": true, "chaninv": true, "poolinv": true, "noreturn": true, "guarded": true, "reflectreads": true, "chanpred": true}
-var subKeywords = map[string]bool{"requires": true, "ensures": true, "modifies": true, "loop": true, "invariant": true, "decreases": true, "trusted": true, "pure": true, "ghostout": true, "opt": true, "params": true, "results": true, "havoc": true, "step": true, "exitassert": true, "slot": true, "acquires": true, "releases": true, "callassert": true}
+var subKeywords = map[string]bool{"requires": true, "ensures": true, "modifies": true, "loop": true, "invariant": true, "decreases": true, "trusted": true, "pure": true, "ghostout": true, "opt": true, "params": true, "results": true, "havoc": true, "step": true, "exitassert": true, "slot": true, "acquires": true, "releases": true, "callassert": true, "exit": true}
 
 func readDirectives(path string) ([]rawDirective, error) {
 	f, err := os.Open(path)
@@ -831,6 +832,15 @@ func (w *World) addDirectives(ds []rawDirective, pkg *packages.Package) error {
 					} else {
 						curLoop.Releases = strings.TrimSpace(s.text)
 					}
+				case "exit":
+					if curLoop == nil {
+						return fmt.Errorf("%s: exit outside loop", s.src)
+					}
+					cl, e := mk()
+					if e != nil {
+						return e
+					}
+					curLoop.Exits = append(curLoop.Exits, cl)
 				case "step":
 					if curLoop == nil {
 						return fmt.Errorf("%s: step outside loop", s.src)
